@@ -3,7 +3,8 @@
 import ast, os, shutil, subprocess, sys, tempfile, importlib, json
 sys.path.insert(0, os.path.dirname(os.path.dirname(os.path.abspath(__file__))))
 from sa import srcmodel, selftest, report
-props = sys.argv[1:] or [f"C{i:02d}" for i in range(1, 21)]
+EVERY = "--all" in sys.argv
+props = [a for a in sys.argv[1:] if a != "--all"] or [f"C{i:02d}" for i in range(1, 21)]
 m = srcmodel.Model()
 for p in props:
     rule = importlib.import_module(f"sa.rules.{p.lower()}")
@@ -15,7 +16,7 @@ for p in props:
         for mn in mods:
             mod = m.modules[mn]
             path = os.path.join(tmp, os.path.relpath(mod.path, "/repo"))
-            tree = ast.parse(mod.source); selftest._rename_locals(tree)
+            tree = ast.parse(mod.source); selftest._rename_locals(tree, every=EVERY)
             open(path, "w").write(ast.unparse(ast.fix_missing_locations(tree)) + "\n")
         m2 = srcmodel.Model(tmp + "/src")
         ctx2 = report.Ctx(p, "quick", m2)
